@@ -28,6 +28,11 @@ def run(ctx):
     for i, level in enumerate((2, 3)):
         cases += X.generate(ctx, n, ctx.seed + i, K=3, acc=("x", "y"), level=level, maxlen=2,
                             fates=("ok", "retry1"), maxfail=1)
+    # blocks with world READ locks and with transactions that call Ensure() in Prepare
+    # (schedules of the model with the world read lock as implemented -- later writers do not wait for the reader --
+    #  so that the real code can follow them; the values are judged against the sequential reference)
+    cases += X.generate(ctx, n, ctx.seed + 5, K=3, acc=("x", "y"), level=2, maxlen=2, fates=("ok",), world=("R", "W"),
+                        ensure=True, implwr="code")
     if not ctx.quick():
         cases += X.generate(ctx, n // 2, ctx.seed + 7, K=4, acc=("x", "y"), level=4, maxlen=2,
                             fates=("ok", "retry1"), maxfail=1)
